@@ -201,6 +201,21 @@ where R: LLLRing, for<'x> &'x R: LLLRingOps<R> {
         while self.data.step < m { 
             self.iterate();
         }
+
+        // the last row is never the `i` of a `reduce(i, k)`, 
+        // normalize its pivot here.
+        if m > 0 { 
+            self.normalize_pivot(m - 1);
+        }
+    }
+
+    fn normalize_pivot(&mut self, i: Row) { 
+        if let Some(j) = self.data.nz_col_in(i) { 
+            let u = self.data.target[(i, j)].normalizing_unit();
+            if !u.is_one() { 
+                self.data.mul_row(i, &u);
+            }
+        }
     }
 
     fn iterate(&mut self) { 
